@@ -691,8 +691,8 @@ func init() {
 		},
 		Run: vRunC08,
 		Meta: vMeta{
-			Level: "exploration",
-			Rule:  "case = (npre/nsamp satisfying the validity rule incl. the 4/8 minimum, edge-multi mode, threshold of either sign, nmonotone, zero-threshold on/off, first frame, one-channel stream with pulse trains at spacings from 1 sample to several records, optionally an edge on/next to the first searchable sample, optionally a reconfiguration mid-stream, block partition family); the same stream is run as one block (two with a reconfiguration) and as the partition through the real ProcessSegments; record lists must be identical and structurally sane; non-trivial = at least one record",
+			Level:       "exploration",
+			Rule:        "case = (npre/nsamp satisfying the validity rule incl. the 4/8 minimum, edge-multi mode, threshold of either sign, nmonotone, zero-threshold on/off, first frame, one-channel stream with pulse trains at spacings from 1 sample to several records, optionally an edge on/next to the first searchable sample, optionally a reconfiguration mid-stream, block partition family); the same stream is run as one block (two with a reconfiguration) and as the partition through the real ProcessSegments; record lists must be identical and structurally sane; non-trivial = at least one record",
 			Assumptions: []string{"the one-block run is the reference for the partition run (metamorphic); structural checks (order, lengths, non-overlap, excerpt, each trigger within ±1 sample of a sample satisfying the edge+monotonicity rule) are independent of the code"},
 			Guards: map[string]map[string]int{
 				"quick":    {"records": 5000, "records_pending_at_cut": 1000, "edge_at_first_cases": 100, "edge_at_first_after_reconf": 30, "varlen_pairs": 500, "distinct:mode": 3},
@@ -707,10 +707,16 @@ func init() {
 			}
 			return 400
 		},
-		Run: vRunC09,
+		Run: func(c *vCase) {
+			if c.Idx%7 == 6 { // a session against the RPC-level server: what clients are told after each edit
+				vRunControlGroupFocus(c)
+				return
+			}
+			vRunC09(c)
+		},
 		Meta: vMeta{
-			Level: "exploration",
-			Rule:  "case = history of 4-30 steps; each step = 0-4 edits (add/delete with valid, repeated, self, negative and too-large indices; stop-coupling; err/fb coupling on a Lancero-typed source) then one block with pulses planted at globally unique frames on one channel each; after every edit the reported connections are compared with a set model, after every block the multiset of secondaries per receiver with the union of its model sources' primaries; non-trivial = every completed history",
+			Level:       "exploration",
+			Rule:        "case = history of 4-30 steps; each step = 0-4 edits (add/delete with valid, repeated, self, negative and too-large indices; stop-coupling; err/fb coupling on a Lancero-typed source) then one block with pulses planted at globally unique frames on one channel each; after every edit the reported connections are compared with a set model, after every block the multiset of secondaries per receiver with the union of its model sources' primaries; non-trivial = every completed history. 1 of 7 cases is instead a session of the C11 harness against an in-package SourceControl (Triangle / scripted Lancero / self-ending sources) made mostly of add/delete/stop-coupling requests incl. partly valid ones: after each, the connection set read from inside the core loop is compared with the GROUPTRIGGER update sent to clients (or, when none was sent, with the set before the request)",
 			Assumptions: []string{"primaries are told from secondaries by construction: a record at frame f on channel c is a primary iff a pulse was planted at f on c (flat elsewhere)"},
 			Guards: map[string]map[string]int{
 				"quick":    {"cycles_with_secondaries": 300, "secondaries": 1000, "invalid_index_edits": 100, "edits_stop": 50, "edits_coupling": 30, "cycles_with_empty_set": 100, "state_checks": 2000},
